@@ -373,13 +373,13 @@ func record(args []string) {
 		src, err := buildObj(et, o)
 		if err != nil {
 			vh.Mismatch(out, vh.M{"engine": "serial", "mode": "record", "kind": o.K, "storage": o.St, "format": format,
-				"view": o.viewWord(), "type": et.Name, "what": "construct"}, vh.M{"event": ev, "message": err.Error(), "seed": seed, "index": i})
+				"view": o.viewWord(), "tclass": et.class(), "what": "construct"}, vh.M{"event": ev, "message": err.Error(), "seed": seed, "index": i})
 			continue
 		}
 		doc, err, pm := encode(src, format, path)
 		if err != nil || pm != "" {
 			vh.Mismatch(out, vh.M{"engine": "serial", "mode": "record", "kind": o.K, "storage": o.St, "format": format,
-				"view": o.viewWord(), "type": et.Name, "what": "encode"}, vh.M{"event": ev, "message": fmt.Sprint(err, pm), "seed": seed, "index": i})
+				"view": o.viewWord(), "tclass": et.class(), "what": "encode"}, vh.M{"event": ev, "message": fmt.Sprint(err, pm), "seed": seed, "index": i})
 			continue
 		}
 		if format == "json" {
@@ -390,13 +390,13 @@ func record(args []string) {
 		dec, err, pm := decode(et, src, format, doc, path, format == "table")
 		if err != nil || pm != "" {
 			vh.Mismatch(out, vh.M{"engine": "serial", "mode": "record", "kind": o.K, "storage": o.St, "format": format,
-				"view": o.viewWord(), "type": et.Name, "what": "decode"}, vh.M{"event": ev, "message": fmt.Sprint(err, pm), "document": head(string(doc), 600), "seed": seed, "index": i})
+				"view": o.viewWord(), "tclass": et.class(), "what": "decode"}, vh.M{"event": ev, "message": fmt.Sprint(err, pm), "document": head(string(doc), 600), "seed": seed, "index": i})
 			continue
 		}
 		var ao vh.M
 		if p := vh.Try(func() { ao = abstractObject(et, dec) }); p != "" {
 			vh.Mismatch(out, vh.M{"engine": "serial", "mode": "record", "kind": o.K, "storage": o.St, "format": format,
-				"view": o.viewWord(), "type": et.Name, "what": "corrupt_object"}, vh.M{"event": ev, "message": p, "document": head(string(doc), 600), "seed": seed, "index": i})
+				"view": o.viewWord(), "tclass": et.class(), "what": "corrupt_object"}, vh.M{"event": ev, "message": p, "document": head(string(doc), 600), "seed": seed, "index": i})
 			continue
 		}
 		ev["dec"] = ao
